@@ -34,7 +34,7 @@ func runC16(c *mon.Ctx) {
 		c.Inconclusive("cannot locate own executable: " + err.Error())
 		return
 	}
-	n := c.N(1600, 48000)
+	n := c.N(1600, 6400) // thorough: race-detector build, one child process per history
 	for i := 0; i < n; i++ {
 		hid := int64(i)*int64(c.NShards) + int64(c.Shard)
 		dir := filepath.Join(c.OutDir, fmt.Sprintf("c16-%d-%d", c.Shard, i))
